@@ -44,3 +44,51 @@ pub fn prefixes_api(
         ingress_register,
     )
 }
+
+fn limits(shortest_prefix_ipv4: u8, shortest_prefix_ipv6: u8) -> QueryLimits {
+    QueryLimits {
+        more_specifics: MoreSpecifics {
+            shortest_prefix_ipv4,
+            shortest_prefix_ipv6,
+        },
+    }
+}
+
+/// Like [`prefixes_api`], but wired as `RibUnitRunner::new` wires it: the
+/// limits cell handed to `PrefixesApi::new` is the runner's own
+/// `query_limits` (holding the given start-up limits), so that a later
+/// [`reconfigure_limits`] reaches the API object through the same shared
+/// `Arc<ArcSwap<QueryLimits>>` as in production.
+pub fn prefixes_api_shared(
+    runner: &RibUnitRunner,
+    http_api_path: &str,
+    shortest_prefix_ipv4: u8,
+    shortest_prefix_ipv6: u8,
+    ingress_register: Arc<Register>,
+) -> PrefixesApi {
+    let rib = Arc::new(ArcSwap::new(runner.verif_rib()));
+    let cell = runner.verif_query_limits();
+    cell.store(Arc::new(limits(shortest_prefix_ipv4, shortest_prefix_ipv6)));
+    PrefixesApi::new(
+        rib,
+        Arc::new(http_api_path.to_string()),
+        cell,
+        RibType::Physical,
+        None,
+        Arc::new(FrimMap::default()),
+        ingress_register,
+    )
+}
+
+/// What the `GateStatus::Reconfiguring` arm of `RibUnitRunner::run` does
+/// with the `query_limits` of the new configuration:
+/// `arc_self.query_limits.store(Arc::new(new_query_limits))`.
+pub fn reconfigure_limits(
+    runner: &RibUnitRunner,
+    shortest_prefix_ipv4: u8,
+    shortest_prefix_ipv6: u8,
+) {
+    runner
+        .verif_query_limits()
+        .store(Arc::new(limits(shortest_prefix_ipv4, shortest_prefix_ipv6)));
+}
